@@ -84,7 +84,8 @@
 //
 // Thresholds in the code: 20 (three error lists) manyerr; escape digit counts 3/2/4/8, bounds 0377 / 0x10FFFF /
 // D800-DFFF escapes [new]; '0' 'x' and exponent signs of LexNumber numlex [new]; isIdent (digit not first) keys;
-// float formatting regimes number, smallnum [new]; 4096 big [new].
+// float formatting regimes number, smallnum [new]; 4096 big [new]; every integer >= 256 the packages name
+// (translator: gen_int_literals) and 64 KiB / 1 MiB-1 / 1 MiB / 1 MiB+1 / 3 MiB as the size of ONE token: bigtoken [new].
 // Not exercised: ErrorList.Max changed by a caller, Keyworder without a keyword set (jsonx never does either).
 package main
 
@@ -634,6 +635,8 @@ func runCase(c *Case) {
 		runLexFn(c, o, in)
 	case "fhist":
 		runFileHist(c, o)
+	case "bigrt":
+		runBigToken(c, o)
 	case "shell":
 		ss, es := strtoken.Parse(string(in))
 		o.Errs = errNames(es)
@@ -884,7 +887,13 @@ func main() {
 	oneOp := flag.String("oneop", "", "run a single case: its operation")
 	oneIn := flag.String("onein", "", "run a single case: input bytes, hex")
 	oneStream := flag.String("onestream", "replay", "run a single case: its stream")
+	sizes := flag.String("sizes", "", "comma-separated integers the source names (gen_int_literals): token sizes to try")
 	flag.Parse()
+	for _, f := range strings.Split(*sizes, ",") {
+		if n, err := strconv.Atoi(f); err == nil && n > 0 {
+			sizeList = append(sizeList, n)
+		}
+	}
 
 	cs := withHolds(genCases(*mode, *seed, *n))
 	if *oneOp != "" {
@@ -940,7 +949,7 @@ func runIsolated(cs []Case, mode string, seed uint64, n int, mem uint64, limit t
 			lim = 400 * time.Millisecond
 		}
 		args := []string{"-mode", mode, "-seed", strconv.FormatUint(seed, 10), "-n", strconv.Itoa(n),
-			"-limit", lim.String(), "-skip", strings.Join(skip, ","),
+			"-limit", lim.String(), "-skip", strings.Join(skip, ","), "-sizes", sizesFlag(),
 			"-child", "-from", strconv.Itoa(from), "-mem", strconv.FormatUint(mem, 10)}
 		if oneOp != "" {
 			args = append(args, "-oneop", oneOp, "-onein", oneIn, "-onestream", oneStream)
@@ -987,6 +996,14 @@ func runIsolated(cs []Case, mode string, seed uint64, n int, mem uint64, limit t
 		from = next + 1
 	}
 	return nil
+}
+
+func sizesFlag() string {
+	var fs []string
+	for _, n := range sizeList {
+		fs = append(fs, strconv.Itoa(n))
+	}
+	return strings.Join(fs, ",")
 }
 
 func jsonxMarshal(v interface{}) ([]byte, error) { return jsonx.Marshal(v) }
